@@ -27,6 +27,7 @@ CONSTANTS
     Precisions,         \* text precisions used along chains
     RoundTripShapes, RoundTripPrecisions,
     DigitMantissas, DigitExponents,
+    FileNames,          \* names under which an artefact may be stored
     AB_LowercaseHeader  \* sabotage: a text writer whose header does not start with the detected magic
 
 VARIABLES kind, art, steps, bound, folds, closed
@@ -47,14 +48,22 @@ StepOver(tool, fmt, prec, via, stale) == [tool |-> tool, fmt |-> fmt, prec |-> p
 
 Init ==
     \/ /\ kind = "chain"
-       /\ \E src \in {"create", "seedtext", "seednpy", "bigtext", "bignpy"}, via \in Vias :
-            /\ art = [fmt |-> IF src \in {"seednpy", "bignpy"} THEN "npy" ELSE "text", via |-> via,
+       \* producers: the create tool, small seeds, "big" (more than a stdout buffer) and "huge" (257 x 257 = 66049 cells: more
+       \* than 2^16 values, more than a megabyte of text) spectra in both formats
+       /\ \E src \in {"create", "seedtext", "seednpy", "bigtext", "bignpy", "hugetext", "hugenpy"}, via \in Vias :
+            /\ art = [fmt |-> IF src \in {"seednpy", "bignpy", "hugenpy"} THEN "npy" ELSE "text", via |-> via,
                       prec |-> IF src = "create" THEN 0 ELSE 17]
             /\ steps = <<Step(src, art.fmt, art.prec, via)>>
        /\ bound = QZero /\ folds = 0 /\ closed = FALSE
     \/ /\ kind = "roundtrip"
        /\ \E sh \in RoundTripShapes, f \in Formats, p \in RoundTripPrecisions :
             art = [fmt |-> f, prec |-> p, shape |-> sh, via |-> "file"]
+       /\ steps = <<>> /\ bound = QZero /\ folds = 0 /\ closed = TRUE
+    \* kind = "named": a tool-written artefact stored under a file name whose extension says nothing, or the WRONG thing,
+    \* about its format (`sfs fold -o folded.npy` writes text): consumers go by the first bytes, never by the name
+    \/ /\ kind = "named"
+       /\ \E f \in Formats, n \in FileNames, c \in {"view", "fold", "stat"} :
+            art = [fmt |-> f, name |-> n, consumer |-> c, via |-> "file", prec |-> 6]
        /\ steps = <<>> /\ bound = QZero /\ folds = 0 /\ closed = TRUE
     \/ /\ kind = "digits"
        /\ \E m \in DigitMantissas, e \in DigitExponents : art = [fmt |-> "text", m |-> m, e |-> e, via |-> "pipe", prec |-> 0]
@@ -95,7 +104,7 @@ Next ==
 Spec == Init /\ [][Next]_vars
 
 (******************************* invariants *******************************)
-DetectedAsWritten == kind = "chain" => Detect(First6(art)) = art.fmt
+DetectedAsWritten == kind \in {"chain", "named"} => Detect(First6(art)) = art.fmt
 HeadsDistinct == Detect("#SHAPE") # Detect("\\x93NUMPY")
 BoundIsFinite == kind = "chain" => ~QLt(bound, QZero)
 
@@ -109,6 +118,9 @@ Emit ==
           [] kind = "roundtrip" ->
                 PrintT("REPLAY " \o ToJson([family |-> "toolchain", kind |-> "roundtrip", shape |-> art.shape,
                                             fmt |-> art.fmt, prec |-> art.prec, half_unit |-> QSci(HalfUnit(art.prec), 20)]))
+          [] kind = "named" ->
+                PrintT("REPLAY " \o ToJson([family |-> "toolchain", kind |-> "named", fmt |-> art.fmt, name |-> art.name,
+                                            consumer |-> art.consumer]))
           [] kind = "digits" ->
                 PrintT("REPLAY " \o ToJson([family |-> "toolchain", kind |-> "digits", m |-> art.m, e |-> art.e]))
 =============================================================================
